@@ -4,7 +4,7 @@
    env is the table of names the module's import statements bind. *)
 From Coq Require Import List ZArith String Ascii Bool Arith.
 From Verif Require Import Lib.Sexp Model.C03_ops Gen.C03_tables Model.C03_expr Model.C03_spec Model.C03_run
-  Proofs.C03_ind Proofs.C03_iter Proofs.C03_rule Proofs.C03_render Proofs.C03_names Proofs.C03_expr Proofs.C03_repaired.
+  Proofs.C03_ind Proofs.C03_iter Proofs.C03_rule Proofs.C03_render Proofs.C03_names Proofs.C03_expr Proofs.C03_repaired Proofs.C03_walk.
 Import ListNotations.
 Open Scope string_scope. Open Scope list_scope. Open Scope nat_scope.
 
@@ -26,6 +26,18 @@ Theorem C03_precedence_table_matches_grammar :
 Proof. exact (conj prec_table_sound prec_table_complete). Qed.
 Print Assumptions C03_precedence_table_matches_grammar.
 
+(* (T) the model's iterate and _precedence are defined over constants regenerated from the `precedence=` arguments of every
+   _yield / _join call of every Expr*.iterate method and from the branches of _precedence; they are the levels the Python
+   grammar gives those operand positions and node classes (a source that requires another level somewhere regenerates another
+   constant: the model follows it, this theorem and the round-trip theorem stop compiling) *)
+Theorem C03_operand_requirements_match_grammar :
+  forallb (fun p => Nat.eqb (fst p) (snd p)) slot_table = true /\
+  pr_BoolOp_if_operator = spec_boolop L_Or /\ pr_UnaryOp_if_operator = spec_unop U_Not /\
+  (forall o, gprec (GBinOp (GStr "") (spec_binop o) (GStr "")) = binop_prec o) /\
+  (forall o vs, gprec (GBoolOp (spec_boolop o) vs) = boolop_prec o) /\ (forall o v, gprec (GUnaryOp (spec_unop o) v) = unop_prec o).
+Proof. exact slot_requirements_match. Qed.
+Print Assumptions C03_operand_requirements_match_grammar.
+
 (* str(expr) is the concatenation of the flat pieces (definition of Expr.__str__), flat iteration is the recursive
    expansion of one-layer iteration (parentheses included), and its pieces are plain strings and names only *)
 Theorem C03_str_is_concat_of_flat : forall fx g,
@@ -34,6 +46,18 @@ Theorem C03_str_is_concat_of_flat : forall fx g,
   Forall is_piece (iterate fx true g).
 Proof. intros fx g. exact (conj eq_refl (conj (iterate_flat_is_expansion fx g) (flat_items_are_pieces fx g))). Qed.
 Print Assumptions C03_str_is_concat_of_flat.
+
+(* what a renderer does with iter(expr) -- one layer at a time, descending into every sub-expression that is not a name --
+   yields exactly the flat iteration, whenever that walk ends within its fuel (decidable: the extracted model evaluates it on
+   every case of the check, with fuel 400); and the amount of fuel does not matter once it suffices *)
+Theorem C03_recursive_walk_is_flat : forall fx n g,
+  forallb is_pieceb (rwalk fx n g) = true -> rwalk fx n g = iterate fx true g.
+Proof. exact rwalk_is_flat. Qed.
+Print Assumptions C03_recursive_walk_is_flat.
+Theorem C03_recursive_walk_fuel_irrelevant : forall fx n m g,
+  forallb is_pieceb (rwalk fx n g) = true -> forallb is_pieceb (rwalk fx m g) = true -> rwalk fx n g = rwalk fx m g.
+Proof. exact rwalk_fuel_irrelevant. Qed.
+Print Assumptions C03_recursive_walk_fuel_irrelevant.
 
 (* building with string parsing in mode m = building, with parsing off, the tree in which exactly the strings selected by
    [subst] (flag on, not under a slice of a name chain that the module's imports resolve to typing.Literal /
